@@ -247,7 +247,7 @@ func (d *Driver) runRemote() error {
 	}
 
 	for _, t := range targets {
-		inputs := d.jsonVariants(t.entry, t.valid, t.strict)
+		inputs := d.withOverrides(t.entry, d.jsonVariants(t.entry, t.valid, t.strict))
 
 		type variant struct {
 			suffix string
@@ -295,7 +295,8 @@ func (d *Driver) runRemote() error {
 
 				d.emit(Event{Ev: "request", ID: id, Entry: t.entry, Class: v.class(in.class), Outcome: outcome, Status: st,
 					Alive: b.get("/c19/base", nil) == 200, StateKept: true,
-					Via: "remote response served to the real mechanism through the assembled decision service"})
+					Via:   "remote response served to the real mechanism through the assembled decision service",
+					Input: b64(in)})
 			}
 		}
 	}
